@@ -356,6 +356,8 @@ def run(check, an: Analysis):
     _scope.check_typestate(check, an)
     from . import _scope as _sc
     _sc.check_scope_core(check, an, skip=('close', 'copies', 'only-exit', 'task-close'))
+    from . import _scope as _kernel
+    _kernel.check_kernel_core(check, an)
     check.stats.update(an.stats())
 
 
